@@ -19,8 +19,8 @@ ASSUMPTIONS = ['baselines are generated from a polynomial of degree <= the fitte
                'joint-shift clause skipped when the rotated baseline length is within 1e-6 of an integer (np.arange length flips on round-off)',
                'degenerate lines are only required not to raise and to give the configured height']
 N = {'quick': 1500, 'thorough': 100000}
-CLASSES = ['inside', 'inside', 'curved', 'curved', 'partly_outside', 'outside', 'steep', 'short', 'degenerate', 'line_cropper', 'many_points', 'reversed']
-REQUIRED = ['fallback_crops_after_the_caller_wrote_into_an_earlier_one', 'degenerate_lines_on_tiny_pages', 'line_cropper_second_pass_lines', 'heights_as:float64_array', 'many_point_grids', 'long_lived_cropper_crops', 'crops', 'grids_checked', 'curved_grids', 'pixels_compared', 'general_path_crops', 'fast_path_crops', 'shift_compared', 'degenerate_checked', 'poly0_cubic_lines', 'line_cropper_lines']
+CLASSES = ['inside', 'inside', 'curved', 'curved', 'partly_outside', 'outside', 'steep', 'short', 'degenerate', 'line_cropper', 'many_points', 'reversed', 'huge_page']
+REQUIRED = ['lines_on_pages_over_32767_px', 'grids_for_another_row_count', 'heights_as:uint8_array', 'fallback_crops_after_the_caller_wrote_into_an_earlier_one', 'degenerate_lines_on_tiny_pages', 'line_cropper_second_pass_lines', 'heights_as:float64_array', 'many_point_grids', 'long_lived_cropper_crops', 'crops', 'grids_checked', 'curved_grids', 'pixels_compared', 'general_path_crops', 'fast_path_crops', 'shift_compared', 'degenerate_checked', 'poly0_cubic_lines', 'line_cropper_lines']
 # bounds (see DESIGN.md C10); measured maxima are reported in the evidence as observed_maxima
 B_CHORD = 0.05        # relative non-uniformity of the advance along the baseline row
 B_STEP = 0.02         # relative error of the mean advance vs (h_up+h_down)*scale/H (plus end effect 1/(W-1))
@@ -108,8 +108,8 @@ def gen(rng, i, ctx):
     heights = [float(rng.uniform(4, 60)), float(rng.uniform(2, 20))]
     case = {'cls': cls, 'poly': poly, 'H': H, 'scale': scale, 'baseline': pts.tolist(), 'heights': heights, 'image': str(rng.choice(['smooth', 'checker', 'noise'])),
             'sagitta': sag, 'shift': [int(rng.integers(1, 40)), int(rng.integers(1, 40))]}
-    case['heights_as'] = ['list', 'tuple', 'float64_array', 'float32_array', 'int_array'][int(rng.integers(0, 5))]
-    if case['heights_as'] == 'int_array':
+    case['heights_as'] = ['list', 'tuple', 'float64_array', 'float32_array', 'int_array', 'uint8_array', 'uint16_array'][int(rng.integers(0, 7))]
+    if case['heights_as'] in ('int_array', 'uint8_array', 'uint16_array'):
         case['heights'] = [float(int(h)) for h in heights]
     if case['heights_as'] == 'float32_array':
         case['heights'] = [float(np.float32(h)) for h in heights]      # the same numbers in every container
@@ -132,6 +132,17 @@ def gen(rng, i, ctx):
         if rng.random() < 0.4:
             case['image_size'] = [[20, 900], [900, 20], [10, 10], [40, 31]][int(rng.integers(0, 4))]
             case['baseline'] = [[5.0, 5.0]] if kind in ('single_point',) else ([[5.0, 5.0], [5.0, 5.0]] if kind == 'identical_points' else case['baseline'])
+    if cls == 'huge_page':
+        # a page with a side of more than 32767 px (a scroll, a stitched newspaper strip); the line lies near its far end
+        big_w = bool(rng.random() < 0.5)
+        case['image_size'] = [260, 33200] if big_w else [33200, 320]
+        L_ = float(rng.uniform(120, 220 if big_w else 250))
+        a_ = math.radians(float(rng.uniform(-8, 8)))
+        x0_, y0_ = (float(rng.uniform(32800, 32950)), float(rng.uniform(100, 160))) if big_w else (float(rng.uniform(30, 50)), float(rng.uniform(32900, 33100)))
+        case['baseline'] = np.round(np.array([[x0_, y0_], [x0_ + L_ * math.cos(a_), y0_ + L_ * math.sin(a_)]])).tolist()
+        case['heights'] = [float(rng.uniform(8, 30)), float(rng.uniform(3, 10))]
+        case['heights_as'] = 'list'
+        case['sagitta'] = 0.0
     if cls == 'reversed':
         # written from right to left (a page scanned upside down): the same band, walked from the first point to the last
         case['baseline'] = case['baseline'][::-1]
@@ -161,7 +172,7 @@ def heights_object(case):
     """The heights in the container the callers really use: lists from XML, float64 arrays from the layout engines, ..."""
     h = case['heights']
     return {'list': list(h), 'tuple': tuple(h), 'float64_array': np.array(h, dtype=np.float64), 'float32_array': np.array(h, dtype=np.float32),
-            'int_array': np.array(h, dtype=np.int64)}[case.get('heights_as', 'list')]
+            'int_array': np.array(h, dtype=np.int64), 'uint8_array': np.array(h, dtype=np.uint8), 'uint16_array': np.array(h, dtype=np.uint16)}[case.get('heights_as', 'list')]
 
 
 def check(case, mon, ctx):
@@ -172,8 +183,10 @@ def check(case, mon, ctx):
     hh = heights_object(case)
     eng = ctx.ce.EngineLineCropper(line_height=H, poly=poly, scale=scale)
     img = image(ctx, case['image']) if not case.get('image_size') else image(ctx, case['image'], *case['image_size'])
-    if case.get('image_size'):
+    if case.get('image_size') and cls == 'degenerate':
         mon.count('degenerate_lines_on_tiny_pages')
+    if cls == 'huge_page':
+        mon.count('lines_on_pages_over_32767_px')
     if cls == 'line_cropper':
         return check_line_cropper(case, mon, ctx)
     old_eng = ctx.long_lived.setdefault((H, poly, scale), ctx.ce.EngineLineCropper(line_height=H, poly=poly, scale=scale))
@@ -244,6 +257,21 @@ def check(case, mon, ctx):
         mon.count('curved_grids')
     Hh, Ww = c.shape[:2]
     band = (hh[0] + hh[1]) * scale
+    # the grid for another number of rows (the ALTO exporter asks a default cropper for 16): that many rows over the same band; and a cropper whose configured
+    # height is re-assigned after construction crops to the new height
+    Ht = [16, 24, 2 * H + 1][(len(pts) + H) % 3]
+    c_t = eng.get_crop_inputs(pts, heights_object(case), Ht).astype(np.float64)
+    mon.count('grids_for_another_row_count')
+    span_t = np.linalg.norm(c_t[-1] - c_t[0], axis=1) if c_t.shape[0] == Ht and c_t.shape[1] else np.array([np.nan])
+    if c_t.shape[0] != Ht or not np.all(np.abs(span_t - band) <= B_SPAN * max(1.0, band)):
+        mon.violation('rows-span-ascender-to-descender', {'note': 'grid requested with %d rows from a cropper configured for %d' % (Ht, H), 'shape': list(c_t.shape), 'span_min': float(np.nanmin(span_t)),
+                      'span_max': float(np.nanmax(span_t)), 'expected': band})
+    eng2 = ctx.ce.EngineLineCropper(line_height=H, poly=poly, scale=scale)
+    eng2.line_height = Ht
+    with contextlib.redirect_stdout(io.StringIO()):
+        crop_t = eng2.crop(img, pts, heights_object(case))
+    if crop_t.shape[0] != Ht or (crop_t.shape[1] == 32 and Ww > 40 and not crop_t.any()):
+        mon.violation('configured-height', {'note': 'line_height re-assigned from %d to %d after construction' % (H, Ht), 'shape': list(crop_t.shape)})
     step = band / H
     if crop.shape[1] != Ww:
         if abs(crop.shape[1] - Ww) == 1 and width_is_borderline():
@@ -286,7 +314,7 @@ def check(case, mon, ctx):
         mon.violation('rows-span-ascender-to-descender', {'span_min': float(span.min()), 'span_max': float(span.max()), 'expected': band})
     lin = float(np.abs(c - (c[0][None] + (np.arange(Hh) / (Hh - 1))[:, None, None] * col[None])).max())
     mon.observe_max('column_nonlinearity_px', lin)
-    if lin > B_COL_LIN * max(1.0, band / 10):
+    if lin > B_COL_LIN * max(1.0, band / 10) + 2 * float(np.spacing(np.float32(np.abs(c).max()))):          # (+ the float32 grid's own resolution at these coordinates)
         mon.violation('rows-run-linearly', {'max_deviation_px': lin})
     tang = np.gradient(base, axis=0)
     tang /= np.linalg.norm(tang, axis=1)[:, None]
@@ -308,6 +336,8 @@ def check(case, mon, ctx):
     if dpix > B_PIX + 0.51:
         mon.violation('pixels-sample-the-grid', {'max_abs_diff': dpix})
     c32 = c.astype(np.float32)
+    if max(img.shape[:2]) >= 32767:
+        return          # (cv2.remap refuses a source of that size: no direct full-image reference, no padded copy for the joint shift; the float64 oracle above stands)
     full = cv2.remap(img, c32[..., 0], c32[..., 1], interpolation=cv2.INTER_LINEAR, borderMode=cv2.BORDER_CONSTANT)
     inside = c32[..., 0].min() >= 0 and c32[..., 1].min() >= 0 and np.ceil(c32[..., 0].max()) <= img.shape[1] - 1 and np.ceil(c32[..., 1].max()) <= img.shape[0] - 1
     mon.count('fast_path_crops' if inside else 'general_path_crops')
